@@ -1,7 +1,9 @@
 mod boardsig;
+mod asmproj;
 mod bussig;
 mod exhaust;
 mod fuzz;
+mod parsechk;
 mod proj;
 mod replay;
 mod runnerchk;
@@ -30,6 +32,7 @@ fn main() {
         "fuzz" => fuzz::fuzz(args[2].parse().unwrap(), args[3].parse().unwrap()),
         "muldiv-term" => exhaust::muldiv_term(),
         "runner-check" => runnerchk::check(&args[2]),
+        "parse-texts" => parsechk::run(&args[2], &args[3], args.get(4).map(|s| s.as_str()).unwrap_or("parse")),
         "scenario" => scenario::run_script(&args[2], &args[3]),
         "bus-sig-check" => bussig::check(&args[2]),
         "board-check" => boardsig::check(&args[2]),
